@@ -18,6 +18,9 @@ THEOREMS = [
     "Pedal.TifaWrapper.c18_lines_within_source",
     "Pedal.TifaWrapper.c18_dispatch_total",
     "Pedal.TifaWrapper.c18_builtin_table_callable",
+    "Pedal.TifaWrapper.c18_class_fields_stable",
+    "Pedal.TifaWrapper.c18_deterministic_across_analyses",
+    "Pedal.TifaWrapper.c18_shared_fields_counterexample",
 ]
 NOTES = [
     "PARTIAL: 'completes on the introductory subset' is a statement about a 1200-line visitor on real ASTs; the "
@@ -27,6 +30,10 @@ NOTES = [
     "call, generated CS1-style programs, the student programs inside pedal's own tests)",
     "an inner failure is modelled by its class flags (is an Exception; str(error) raises); BaseException subclasses "
     "that are not Exceptions escape by design (c18_non_exception_escapes)",
+    "determinism across analyses: proved for attribute stores (Type.add_attr) on instances of the generated Type "
+    "classes; other process-wide channels (a builtin FunctionType object or a parents=[IntType()] instance mutated in "
+    "place, element types of shared containers) are not modelled - they are probed by the state-leak programs and by "
+    "comparing every program's first analysis with a second one on a fresh report",
     "line bound: relative to the parser numbering nodes 1..nlines (CPython universal newlines) and issues being "
     "located at AST nodes (locate = node.lineno + line_offset)",
     "functions of third-party modules pedal also describes (designer, drafter, PIL, matplotlib, microbit, bakery, "
@@ -141,7 +148,8 @@ def correspond(rng, tier, driver):
                 "call; model = Pedal.TifaWrapper.tifaAnalysis folded over the same calls with each program's inner "
                 "outcome taken from a separate reference analysis; (2) every ast node class of the running Python: real "
                 "getattr(Tifa, 'visit_'+cls, generic_visit) vs model dispatch; (3) every generated table row with a "
-                "well-typed call: model Row.usable vs the real analysis of that call; non-trivial = a history with a "
+                "well-typed call: model Row.usable vs the real analysis of that call; (4) every Type class: does add_attr on "
+                "a fresh instance change a class-level `fields` dictionary - real vs model addAttr; non-trivial = a history with a "
                 "repeated program and at least one failing program")
     n_hist = 120 if tier == "quick" else 1500
     files, snippets = tw.corpus_programs()
@@ -254,6 +262,31 @@ def correspond(rng, tier, driver):
         if m is None or (m is False and completes) or (m is True and callability):
             res.disagreements.append({"case": {"row": key, "code": code}, "real": {"completes": completes, "error": c.get("error")},
                                       "model": {"usable": m}, "request": "rows"})
+    # (4) whose dictionary add_attr writes to
+    from pedal.types import new_types as nt
+    classes = tt.all_type_classes()
+    answers = driver.ask(["fields %s verif_probe_field" % c.__name__ for c in classes])
+    for cls, ans in zip(classes, answers):
+        res.evaluations += 1
+        inst = tt.construct(cls)
+        if inst is None:
+            real = "class-level-unchanged" if not tt.class_level_dicts(cls) else "cannot-construct"
+        else:
+            every = [d for c in classes for d in tt.class_level_dicts(c)]
+            before = [set(d) for d in every]
+            try:
+                inst.add_attr("verif_probe_field", nt.AnyType())
+            except Exception as e:
+                real = "add_attr-raised-" + type(e).__name__
+            else:
+                real = "class-level-changed" if any(set(d) != b for d, b in zip(every, before)) else "class-level-unchanged"
+            for d, b in zip(every, before):          # leave the process as it was
+                if "verif_probe_field" in d and "verif_probe_field" not in b:
+                    del d["verif_probe_field"]
+        res.count("fields:" + real)
+        if real != ans:
+            res.disagreements.append({"case": {"type_class": cls.__name__}, "real": real, "model": ans,
+                                      "request": "fields %s verif_probe_field" % cls.__name__})
     for k, v in skipped.items():
         res.count("skipped: " + k, v)
     res.samples = [m["codes"][0][:300] for m in metas[:3]]
